@@ -1,3 +1,5 @@
 //! Probing code that must behave identically in both harness builds; only the cargo features of
 //! dicom-transfer-syntax-registry differ between them.
 pub mod registry;
+pub mod negotiate;
+pub mod pduconv;
